@@ -228,6 +228,9 @@ def run_gb(c, it, a, k):
             rec.out_regions, rec.result_blocks = regs, outs
             for j, blk in enumerate(outs):
                 _check_block(c, it, blk, regs[j], f"{tag}.shape[out{j}]", f"{tag}.origin[out{j}]", j)
+                h = getattr(c, "check_result_block", None)
+                if h is not None:
+                    h(it, rec, tag, j, blk)
     except _Abort:
         pass
     finally:
@@ -404,7 +407,9 @@ def _block_for(c, it, name, z, grids, coords):
         # VirtualOffsetsArray: the 0-d value at block `coords` is ravel_multi_index(coords, shape)
         return OffsetBlock(coords, z.shape)
     origin = lambda loc, starts=starts, name=name: (name, tuple(s + l for s, l in zip(starts, loc)))
-    return SymBlock(shape, z.dtype, origin, f"block:{name}")
+    blk = SymBlock(shape, z.dtype, origin, f"block:{name}")
+    blk.agg = dict(src=name, box=tuple((s0, s0 + e) for s0, e in zip(starts, shape)), cond=[])
+    return blk
 
 
 class OffsetBlock(SymBlock):
